@@ -683,8 +683,8 @@ class SetUnion(Set):
 
     def __hash__(self):
         """Return ``hash(self)``."""
-        # Use `set` to allow permutations
-        return hash((type(self), set(self.sets)))
+        # Use `frozenset` to allow permutations
+        return hash((type(self), frozenset(self.sets)))
 
     def element(self, inp=None):
         """Create a new element.
@@ -806,8 +806,8 @@ class SetIntersection(Set):
 
     def __hash__(self):
         """Return ``hash(self)``."""
-        # Use `set` to allow permutations
-        return hash((type(self), set(self.sets)))
+        # Use `frozenset` to allow permutations
+        return hash((type(self), frozenset(self.sets)))
 
     def __len__(self):
         """Return ``len(self)``."""
@@ -903,7 +903,7 @@ class FiniteSet(Set):
 
     def __hash__(self):
         """Return ``hash(self)``."""
-        return hash((type(self), set(self.elements)))
+        return hash((type(self), frozenset(self.elements)))
 
     def element(self, inp=None):
         """Create a new element.
